@@ -209,8 +209,84 @@ func (s *Session) runUnits(names []string) ([]*UnitResult, error) {
 			continue
 		}
 		for k, o := range ex.obls {
-			if o.Res.Status == "" {
+			if o.Res.Status == "" && o.Class != "cover" {
 				tasks = append(tasks, task{ex, o, k})
+			}
+		}
+	}
+	// cover queries: per obligation name, instances are tried in rounds until one
+	// is satisfiable
+	type cgroup struct {
+		ex    *Exec
+		insts []*Obligation
+		done  bool
+	}
+	var cgroups []*cgroup
+	for _, ex := range execs {
+		if ex == nil {
+			continue
+		}
+		idx := map[string]*cgroup{}
+		for _, o := range ex.obls {
+			if o.Class != "cover" {
+				continue
+			}
+			g := idx[o.Name]
+			if g == nil {
+				g = &cgroup{ex: ex}
+				idx[o.Name] = g
+				cgroups = append(cgroups, g)
+			}
+			g.insts = append(g.insts, o)
+		}
+	}
+	for round := 0; round < 40; round++ {
+		var cur []*Obligation
+		var curG []*cgroup
+		for _, g := range cgroups {
+			if !g.done && round < len(g.insts) {
+				cur = append(cur, g.insts[round])
+				curG = append(curG, g)
+			}
+		}
+		if len(cur) == 0 {
+			break
+		}
+		const cb = 24
+		var cwg sync.WaitGroup
+		sem := make(chan struct{}, 8)
+		for i := 0; i < len(cur); i += cb {
+			lo, hi := i, min(i+cb, len(cur))
+			cwg.Add(1)
+			sem <- struct{}{}
+			go func() {
+				defer cwg.Done()
+				defer func() { <-sem }()
+				scripts := make([]string, hi-lo)
+				for k := lo; k < hi; k++ {
+					scripts[k-lo] = curG[k].ex.w.st.script(cur[k].Assumes, cur[k].Goal, false)
+				}
+				res := solveBatch(s.workdir, scripts, 3)
+				for k := lo; k < hi; k++ {
+					cur[k].Res = res[k-lo]
+					if d := os.Getenv("GOVC_DEBUG_COVER"); d != "" && res[k-lo].Status != "sat" {
+						os.MkdirAll(d, 0o755)
+						os.WriteFile(filepath.Join(d, sanitizeFile(fmt.Sprintf("%s-r%d-%s", cur[k].Name, round, res[k-lo].Status))+".smt2"), []byte(scripts[k-lo]), 0o644)
+					}
+					cur[k].Assumes = nil
+					if res[k-lo].Status == "sat" {
+						curG[k].done = true
+					}
+				}
+			}()
+		}
+		cwg.Wait()
+	}
+	for _, g := range cgroups {
+		for _, o := range g.insts {
+			o.Assumes = nil
+			if o.Res.Status == "" {
+				o.Res = SolveResult{Status: "skipped", Backend: "-"}
 			}
 		}
 	}
@@ -312,6 +388,27 @@ func (s *Session) runUnits(names []string) ([]*UnitResult, error) {
 		by := map[string]*ObSummary{}
 		var order []string
 		for _, o := range ex.obls {
+			if o.Class == "cover" {
+				sm, ok := by[o.Name]
+				if !ok {
+					sm = &ObSummary{Name: o.Name, Class: o.Class, Fn: o.Fn, Status: "failed", Pos: o.Pos, Src: o.Src, Desc: o.Desc, Backend: "z3-5.1.0"}
+					by[o.Name] = sm
+					order = append(order, o.Name)
+				}
+				sm.Instances++
+				sm.Secs += o.Res.Secs
+				switch o.Res.Status {
+				case "sat":
+					sm.Status = "discharged"
+				case "unsat", "skipped":
+				default:
+					if sm.Status == "failed" {
+						sm.Status = "undecided"
+						sm.Backend = "z3-5.1.0:" + o.Res.Status
+					}
+				}
+				continue
+			}
 			sm, ok := by[o.Name]
 			if !ok {
 				sm = &ObSummary{Name: o.Name, Class: o.Class, Fn: o.Fn, Status: "discharged", Pos: o.Pos, Src: o.Src, Desc: o.Desc}
